@@ -22,7 +22,8 @@ CHECKS = {
                 "is the negation, == implies equal hashes. A concrete-alphabet family (real hash) covers 1/1.0/True, NaN, "
                 "kw mappings, sibling classes, dict/set interchangeability, FrozenInstanceError on rebinding and operation "
                 "histories (solver-enumerated selectors with a coverage query)."
-                " User classes include expr_dataclass(init=False), a three-level legacy hierarchy; reflexivity is also checked with float nan in every scalar field.",
+                " User classes include expr_dataclass(init=False), a three-level legacy hierarchy; reflexivity is also checked with float nan in every scalar field."
+                " Keyword parameters given as MappingProxyType / UserDict / ChainMap; user classes with keyword-only, init=False and ClassVar members.",
         "design_ref": "DESIGN.md §4 C01",
         "note": "Trusted: the UF model of hash (equal input => equal hash, nothing else), z3 string equality, the harness's "
                 "field-wise oracle. Real dict bucket placement and python -O are outside the claim.",
@@ -34,7 +35,8 @@ CHECKS = {
                 "alphabet) the four real evaluator entry points are executed on z3 proxies and z3 proves per path that the "
                 "result equals an independent denotation for every environment (unbounded Int, exact Real, 64-bit BV in a "
                 "stated box for bitwise operators); exceptions are compared by class, unknown variables by name."
-                " Skeleton extras: unbound function / aggregate / record names, one-tuple subscripts (a[(i,)] is not a[i]), conditionals whose condition is a number with an undefined unselected branch.",
+                " Skeleton extras: unbound function / aggregate / record names, one-tuple subscripts (a[(i,)] is not a[i]), conditionals whose condition is a number with an undefined unselected branch."
+                " Every compared evaluation of a tree with wrappers is preceded by one in a shifted environment (wrappers of all three scopes).",
         "design_ref": "DESIGN.md §4 C02",
         "note": "Trusted: the proxies' model of Python arithmetic (validated on every run against CPython on a grid of "
                 "operands), pv/refsem.py as the meaning of each node, z3. Floats are modelled as exact reals. Shapes beyond "
@@ -49,7 +51,8 @@ CHECKS = {
                 "Variables through the real overloaded operators (tree then evaluated) and directly on the environment's z3 "
                 "proxies - and z3 proves equality for every environment and every c. A 2x2 symbolic matrix family decides "
                 "operand order of sums/products; ordering comparisons are asserted to raise TypeError."
-                " Operand kinds include trees pymbolic's own zero test calls zero (0//x, 0%x, 3 - 0//x, ...); chains of two logical constructor methods; ordering comparisons on 14 further node kinds incl. NaN.",
+                " Operand kinds include trees pymbolic's own zero test calls zero (0//x, 0%x, 3 - 0//x, ...); chains of two logical constructor methods; ordering comparisons on 14 further node kinds incl. NaN."
+                " Constant 0.5 (counterexamples through the uninterpreted power are confirmed on a concrete grid or reported inconclusive); a logical constructor method applied to the result of a comparison method.",
         "design_ref": "DESIGN.md §4 C03",
         "note": "Trusted: proxies' arithmetic model (self-tested per run), the uncached evaluator as the meaning of a tree "
                 "(itself checked by C02), z3. Integer and rational environments are separate families; floats are exact reals.",
@@ -104,7 +107,8 @@ CHECKS = {
                 "ternaries, calls with keyword arguments, subscripts, attributes, tuples and parenthesisations is parsed by "
                 "pymbolic.parse and imported by ASTToPymbolic; the tree is evaluated on z3 proxies, CPython's own eval of the "
                 "same string runs on the same proxies, and z3 proves per path that they agree for every environment. Strings "
-                "Python rejects must be rejected with the parse error.",
+                "Python rejects must be rejected with the parse error."
+                " Strings also cover literals under prefix operators, keyword-like names (Truex, nota), imaginary / hex / octal / binary / underscore literals, parenthesised zero-like operands and trailing commas in every bracket kind.",
         "design_ref": "DESIGN.md §4 C07",
         "note": "Trusted: CPython's parser/eval as the oracle, the evaluator as the meaning of a tree (C02), proxies, z3. "
                 "Logical nodes are compared as truth values (BoolOp wrapped in bool() in the oracle). Literal and identifier "
@@ -119,7 +123,8 @@ CHECKS = {
                 "real substitute() result (plain and memoizing mapper) is evaluated on z3 proxies and z3 proves per path that "
                 "it equals the original tree evaluated with every replaced name / node bound to its replacement's value. Path "
                 "assertions: untouched subtrees are the identical objects; plain and cached results are equal."
-                " Trees include instances of a user subclass of Variable; map shapes include names that occur as attribute / keyword / prefix names and a mapping combined with keyword arguments.",
+                " Trees include instances of a user subclass of Variable; map shapes include names that occur as attribute / keyword / prefix names and a mapping combined with keyword arguments."
+                " Zero-like replacement values, hash-colliding constants in same-shaped subtrees.",
         "design_ref": "DESIGN.md §4 C08",
         "note": "Trusted: refsem/evaluator as meaning (C02), proxies, z3. For the memoizing mapper the identity clause is only "
                 "asserted on trees without equal-but-distinct subtrees (memoization shares results between them).",
@@ -149,7 +154,8 @@ CHECKS = {
                 "symbolic point and z3 (NRA + uninterpreted elementary functions constrained by ground instances of their "
                 "identities) proves per path that it equals a forward-mode dual-number derivative written in the harness. "
                 "Refusal clauses (non-smooth / unknown functions) are path assertions."
-                " Kinds with the same operand OBJECT in several positions (s*s, x*y*x, (a+b)/a, a**a) are included.",
+                " Kinds with the same operand OBJECT in several positions (s*s, x*y*x, (a+b)/a, a**a) are included."
+                " Table functions called with another number of arguments must be refused.",
         "design_ref": "DESIGN.md §4 C10",
         "note": "Trusted: the dual-number rules in pv/props/c10.py, the evaluator (C02), z3. Reals stand in for floats; points "
                 "of non-differentiability are excluded. A sat model is replayed numerically with the math module and a central "
@@ -193,7 +199,8 @@ CHECKS = {
                 "z3 proxies and z3 proves per path that each returns what the evaluator returns for every argument assignment "
                 "(arithmetic errors compared by class). Argument order is a path assertion over compile histories: one "
                 "expression with 0-8 variables (some named like Python builtins) is compiled again and again in one process "
-                "with every listing of <= 3 names (used or unused), twice round, and pickled.",
+                "with every listing of <= 3 names (used or unused), twice round, and pickled."
+                " A witness with exact rational arguments per float-free skeleton (no float approximation of an exact result).",
         "design_ref": "DESIGN.md §4 C13",
         "note": "Trusted: the evaluator as reference (C02), proxies, z3, CPython's compile/exec of the generated code. Operands "
                 "of logical nodes are boolean-valued in this family. NotImplementedError from a translator is a clean refusal.",
@@ -225,7 +232,8 @@ CHECKS = {
                 "the solution set over real unknowns is unchanged in both directions. (c) solve_affine_equations_for on 121 "
                 "small systems: z3 proves the returned assignments satisfy every equation for all parameter values; "
                 "uniqueness/integrality oracle by exact rational elimination."
-                " Target sets include the empty set.",
+                " Target sets include the empty set."
+                " Over-determined parametric systems.",
         "design_ref": "DESIGN.md §4 C15",
         "note": "Trusted: evaluator (C02) for coefficient expressions, z3, the harness's rational row-reduction oracle. The "
                 "Gaussian-elimination claim is bounded by the entry box.",
@@ -242,7 +250,8 @@ CHECKS = {
                 "the values equal for all atom values and all interpretations - a necessary condition of equality modulo AC; the "
                 "AC-canonical forms must coincide (this is also the replay criterion); injective renamings must yield a record. "
                 "The matchpy bridge: From(To(e)) on 47 expressions; match / match_anywhere / replace_all with dot and star "
-                "wildcards under the same instantiation law (multiset multiplicities via a value query with R := x*z).",
+                "wildcards under the same instantiation law (multiset multiplicities via a value query with R := x*z)."
+                " Repeated variables under non-commutative nodes, targets using the pattern's own names, near misses, sibling node classes; replace_all below call arguments and subscript indices.",
         "design_ref": "DESIGN.md §4 C16",
         "note": "Structure is enumerated, not symbolic: the quantifier over (pattern, target) pairs is bounded-exhaustive "
                 "over the listed families only. matchpy's own algorithms are exercised, not encoded. Trusted: the harness's "
@@ -274,7 +283,8 @@ CHECKS = {
                 "and sym_fft on vectors of symbolic complex numbers (pairs of reals in numpy object arrays) for every length "
                 "1..12 (thorough 1..32), both signs, ifft alone: z3 (LRA) proves each output within n*1e-9 of the DFT definition with independently "
                 "computed twiddles for every input in the unit box; Polynomial + - * ** divmod with symbolic integer "
-                "coefficients at a symbolic point against the same operation on values; quotient nodes.",
+                "coefficients at a symbolic point against the same operation on values; quotient nodes."
+                " extended_euclidean on 60 integer polynomial pairs (Bezout identity decided at a symbolic point, divisibility by divmod; each call under an alarm).",
         "design_ref": "DESIGN.md §4 C19",
         "note": "Trusted: schoolbook definitions in the harness, proxies, z3. Reals stand in for floats in the FFT. For powers "
                 "and products of a polynomial with itself the coefficients are concrete (the zero-tests are nonlinear).",
